@@ -101,9 +101,9 @@ TEXT = {
         'design_ref': 'DESIGN.md §4 C19',
     },
     'C20': {
-        'text': 'Partial: the single-use rule of Prio3 and Prio2 is proved for all histories (Verus); for Poplar1, Kani proves on the real is_agg_param_valid that a non-empty history admits a parameter only if its level is strictly greater than the MOST RECENT one (every u16 level, histories of up to 3 parameters with empty candidate sets: bounded) and that an empty history admits everything.',
-        'note': 'The prefix-extension clause of the Poplar1 rule and prefix-list validation compare bitvec values and are not decided by this family here.',
-        'technique': 'function contracts on extracted real code (Verus) + contract harness on the real function (Kani)',
+        'text': 'The single-use rule of Prio3 and Prio2 is proved for all histories (Verus). For Poplar1, Verus proves on the extracted is_agg_param_valid, for every history, level and candidate set, that the result is exactly: empty history, or strictly deeper than the MOST RECENT parameter and every prefix extends one of its candidates (IdpfInput::prefix uninterpreted, BTreeSet as a set); Kani additionally proves on the compiled function on the real is_agg_param_valid that a non-empty history admits a parameter only if its level is strictly greater than the MOST RECENT one (every u16 level, histories of up to 3 parameters with empty candidate sets: bounded) and that an empty history admits everything.',
+        'note': 'IdpfInput::prefix (bitvec slicing) is an assumed uninterpreted function; prefix-list ordering/dedup validation in try_from_prefixes compares bitvec values and is not decided by this family here.',
+        'technique': 'function contracts with a loop invariant on extracted real code (Verus) + contract harness on the real function (Kani)',
         'design_ref': 'DESIGN.md §4 C20',
     },
     'C12': {
